@@ -229,69 +229,88 @@ def _from_array(e):
 
 
 def fromarr2(ctx, prog, cfg, rule="FROMARR2"):
+    from .. import geom, guards
+
     f = ctx.need_fn(prog, FROM, rule)
     if f is None:
         return
     M = {("cparam", "M"): 1}
-    copies = []
+    copy_blocks = {}
     for b, t in f.calls(False):
         if mir.callee_path(t) in ("core::ptr::copy_nonoverlapping", "core::ptr::copy"):
-            a = f.call_args(b)
-            copies.append((b, a[0], a[1], a[2]))
+            copy_blocks[b] = [f.deep_simplify(a) for a in f.call_args(b)]
     for b, i, st, is_term in f.positions(False):
         if not is_term and st["k"] == "copy_nonoverlapping":
-            copies.append((b, f.operand_expr(st["src"], b, i), f.operand_expr(st["dst"], b, i), f.operand_expr(st["count"], b, i)))
-    drops = []
+            copy_blocks[b] = [f.deep_simplify(f.operand_expr(st[k], b, i)) for k in ("src", "dst", "count")]
+    drop_blocks = {}
     for b, t in f.calls(False):
         if mir.callee_path(t) == "core::ptr::drop_in_place":
-            a = mir.strip_casts(f.deep_simplify(f.call_args(b)[0]))
-            rng = None
-            for s in mir.walk(a):
-                if isinstance(s, tuple) and s and s[0] == "agg" and str(s[1]).startswith("core::ops::range::"):
-                    rng = s
-            if rng is None:
-                drops.append((b, None, None))
-                continue
-            d = dict(rng[3])
-            kind = rng[2]
-            lo = _flin(f, d["start"]) if "start" in d else {}
-            hi = _flin(f, d["end"]) if "end" in d else dict(M)
-            if kind == "RangeInclusive" or kind == "RangeToInclusive":
-                hi = _flin(f, ("int", 1), 1, hi)
-            drops.append((b, lo, hi))
-    if not copies:
+            drop_blocks[b] = f.deep_simplify(f.call_args(b)[0])
+    if not copy_blocks:
         ctx.violate(rule, FROM, "bit-copy of the kept block", f.loc, "From<[T; M]> has no ptr::copy of the kept block: the geometry cannot be decided", cfg)
         return
-    starts = []
-    for (b, src, dst, cnt) in copies:
-        sroot, O = _ptr_offset(f, src)
-        droot, DO = _ptr_offset(f, dst)
-        C = _flin(f, cnt)
-        if not _from_array(sroot):
-            continue  # not a copy out of the argument
-        starts.append(_fk(O))
-        end = dict(O)
-        for k, v in C.items():
-            end[k] = end.get(k, 0) + v
-        ctx.check(_fk(end) == _fk(M), rule, FROM, "copied block ends at M (the last elements are kept)", short_loc(f, b),
-                  "the block bit-copied out of the array is [%s, %s), which does not end at M: the buffer does not keep the *last* "
-                  "elements of the array" % (_fshow(f, O), _fshow(f, end)), "source offset + count = M", cfg)
-        ctx.check(_fk(DO) == (), rule, FROM, "copy lands at slot 0", short_loc(f, b),
-                  "the kept block is written at offset `%s` of the new storage while the header says start = 0" % _fshow(f, DO),
-                  "destination offset 0", cfg)
-        if len(copies) == 1:
-            for rb in f.return_blocks():
-                r = f.deep_simplify(f.return_expr(rb))
-                if isinstance(r, tuple) and r and r[0] == "agg":
-                    sz = dict(r[3]).get("size")
-                    ctx.check(sz is not None and _fk(_flin(f, sz)) == _fk(C), rule, FROM, "header counts exactly the copied elements", short_loc(f, rb),
-                              "size = `%s` but `%s` elements were copied in: uninitialised slots are counted, or owned elements are not" %
-                              (_fshow(f, _flin(f, sz)) if sz is not None else "?", _fshow(f, C)), "size = copy count", cfg)
-    for (b, lo, hi) in drops:
-        if lo is None:
-            ctx.ok(rule, FROM, "destroyed block", "drop_in_place target is not a range of the array (judged by FROMARR1)", cfg, nontrivial=False)
+    # every feasible path entry -> return is judged with the operands as they are on that path (a length / offset pair chosen
+    # by an earlier branch is that branch's pair there)
+    paths = geom._paths(f) if not f.has_loop() else []
+    G = guards.Guards(f)
+    cases = {}
+    for path in paths:
+        atoms = set()
+        for x, y in zip(path, path[1:]):
+            for (s_, kind, label) in f.succ_edges(x):
+                if s_ == y and kind == "normal":
+                    atoms |= set(G.edge_atoms(x, label))
+                    break
+        if guards.Zone(f, atoms).contradiction:
             continue
-        ctx.check(_fk(lo) == () and _fk(hi) in starts, rule, FROM, "destroyed block = [0, start of the copied block)", short_loc(f, b),
-                  "the destroyed block is [%s, %s) but the copied block starts at %s: an element is both destroyed and owned by the "
-                  "buffer, or neither" % (_fshow(f, lo), _fshow(f, hi), sorted(starts)), "destroyed [0, M - size), copied [M - size, M)", cfg)
-    ctx.floor(rule, "copies out of the array", len(starts), 1, cfg)
+        cps = tuple((b, tuple(geom.on_path(f, a, path) for a in copy_blocks[b])) for b in path if b in copy_blocks)
+        dps = tuple((b, geom.on_path(f, drop_blocks[b], path)) for b in path if b in drop_blocks)
+        r = geom.on_path(f, f.deep_simplify(f.return_expr(path[-1])), path)
+        cases.setdefault((cps, dps, r), path)
+    if not cases:
+        cases = {(tuple((b, tuple(v)) for b, v in copy_blocks.items()), tuple(drop_blocks.items()), None): None}
+    n_starts = 0
+    for (cps, dps, r), path in cases.items():
+        starts = []
+        ccount = None
+        for (b, (src, dst, cnt)) in cps:
+            sroot, O = _ptr_offset(f, src)
+            droot, DO = _ptr_offset(f, dst)
+            C = _flin(f, cnt)
+            if not _from_array(sroot):
+                continue  # not a copy out of the argument
+            starts.append(_fk(O))
+            n_starts += 1
+            ccount = C if len(cps) == 1 else None
+            end = dict(O)
+            for k, v in C.items():
+                end[k] = end.get(k, 0) + v
+            ctx.check(_fk(end) == _fk(M), rule, FROM, "copied block ends at M (the last elements are kept)", short_loc(f, b),
+                      "the block bit-copied out of the array is [%s, %s), which does not end at M: the buffer does not keep the *last* "
+                      "elements of the array" % (_fshow(f, O), _fshow(f, end)), "source offset + count = M", cfg)
+            ctx.check(_fk(DO) == (), rule, FROM, "copy lands at slot 0", short_loc(f, b),
+                      "the kept block is written at offset `%s` of the new storage while the header says start = 0" % _fshow(f, DO),
+                      "destination offset 0", cfg)
+        if ccount is not None and isinstance(r, tuple) and r and r[0] == "agg":
+            sz = dict(r[3]).get("size")
+            ctx.check(sz is not None and _fk(_flin(f, sz)) == _fk(ccount), rule, FROM, "header counts exactly the copied elements", f.loc,
+                      "size = `%s` but `%s` elements were copied in: uninitialised slots are counted, or owned elements are not" %
+                      (_fshow(f, _flin(f, sz)) if sz is not None else "?", _fshow(f, ccount)), "size = copy count", cfg)
+        for (b, a) in dps:
+            a = mir.strip_casts(a)
+            rng = None
+            for s_ in mir.walk(a):
+                if isinstance(s_, tuple) and s_ and s_[0] == "agg" and str(s_[1]).startswith("core::ops::range::"):
+                    rng = s_
+            if rng is None:
+                ctx.ok(rule, FROM, "destroyed block", "drop_in_place target is not a range of the array (judged by FROMARR1)", cfg, nontrivial=False)
+                continue
+            d = dict(rng[3])
+            lo = _flin(f, d["start"]) if "start" in d else {}
+            hi = _flin(f, d["end"]) if "end" in d else dict(M)
+            if rng[2] in ("RangeInclusive", "RangeToInclusive"):
+                hi = _flin(f, ("int", 1), 1, hi)
+            ctx.check(_fk(lo) == () and _fk(hi) in starts, rule, FROM, "destroyed block = [0, start of the copied block)", short_loc(f, b),
+                      "the destroyed block is [%s, %s) but the copied block starts at %s: an element is both destroyed and owned by the "
+                      "buffer, or neither" % (_fshow(f, lo), _fshow(f, hi), sorted(starts)), "destroyed [0, M - size), copied [M - size, M)", cfg)
+    ctx.floor(rule, "copies out of the array", n_starts, 1, cfg)
